@@ -135,6 +135,7 @@ def histOps : List String :=
 def handle (st : DState) (ws : List String) : String × DState :=
   let pure (s : String) : String × DState := (s, st)
   if histOps.contains (ws.headD "") then
+    let ws := match ws with | ["remk", r, k, _kind] => ["remk", r, k] | _ => ws     -- the source kind of a key is irrelevant to a removal
     let (res, w) := DH.step st.w ws
     let w := w.flush
     (s!"{ws.headD ""} {res}|{" ".intercalate w.log.reverse}", { st with w := { w with log := [] } })
